@@ -392,11 +392,19 @@ func (set *Set) remove(hosts ...*Host) {
 	if len(hosts) == 0 {
 		return
 	}
+	stored := make([]*Host, 0, len(hosts))
 	for _, host := range hosts {
+		// The given host may only describe the stored one (same address but a
+		// different object or type), so the stored host must be dropped as well.
+		if h, ok := set.all[host.Addr]; ok && h != host {
+			h.markRemoved()
+			stored = append(stored, h)
+		}
 		delete(set.all, host.Addr)
 		host.markRemoved()
 	}
 	set.removeFromHealthy(hosts...)
+	set.removeFromHealthy(stored...)
 }
 
 // MarkHostHealthy marks the given host as healthy.
